@@ -285,6 +285,25 @@ func runC07(o *out, thorough bool, r *rng, _ []string) map[string]interface{} {
 			}
 		}
 	}
+	// the attribute is not there at all: a message without attributes, with attributes of other types only, with
+	// the type present only AFTER the declared length (trailing bytes)
+	for g := 1; g <= 7; g++ {
+		for _, t := range getterTypes[g] {
+			var key []byte
+			if g == 6 {
+				key = r.bytes(20)
+			}
+			empty := header(0x0101, 0, tid)
+			others := append(header(0x0101, 16, tid), append(r.tlv(0x8030, r.bytes(3), 3), r.tlv(0x8031, r.bytes(8), 8)...)...)
+			trailing := append(append([]byte(nil), empty...), r.tlv(t, r.bytes(8), 8)...)
+			for _, data := range [][]byte{empty, others, trailing} {
+				for _, ex := range [][]byte{nil, fill(r, r.rangeIn(1, 64), r.intn(3))} {
+					o.run(701, []string{fHex(data), fHex(ex), fNums(g, t), fHex(key)}, true)
+				}
+			}
+			o.count("absent-attribute-cases")
+		}
+	}
 	// checkers on real signed / fingerprinted messages (valid and corrupted), with trailing attributes
 	n := 300
 	if thorough {
@@ -348,6 +367,21 @@ func execRoundTrip(o *out, f [][]int) []int {
 	}
 	obs := []int{0, 0, len(m.Raw)}
 	obs = append(obs, intsOf(m.Raw)...)
+	if k := f[1][0]; k != 10 && k != 11 {
+		// the same message put together the other way round - header first with the zero transaction ID, then the
+		// fields, the attribute, and the header written again at the end: the attribute's bytes depend on the value
+		// and on the TransactionID FIELD only (integrity and fingerprint, which cover the header bytes, excepted)
+		m2 := new(stun.Message)
+		m2.WriteHeader()
+		m2.Type = stun.NewType(1, 0)
+		m2.TransactionID = tid
+		var err2 error
+		pan, _ := guarded(func() { err2 = mkSetter(f[1], nil).AddTo(m2) })
+		m2.WriteHeader()
+		if pan || err2 != nil || !bytes.Equal(m2.Raw, m.Raw) {
+			o.failFor("C06", "attribute-depends-on-construction-order", "601 "+fNums(f[0]...)+" "+fNums(f[1]...)+" "+fNums(f[2]...))
+		}
+	}
 	d := new(stun.Message)
 	if derr := stun.Decode(m.Raw, d); derr != nil {
 		return append(obs, 1)
